@@ -26,6 +26,7 @@ import (
 	"luahelper-lsp/langserver"
 	"luahelper-lsp/langserver/check/annotation/annotateparser"
 	"luahelper-lsp/langserver/check/common"
+	"luahelper-lsp/langserver/codingconv"
 	"luahelper-lsp/langserver/check/compiler/lexer"
 	"luahelper-lsp/langserver/check/compiler/parser"
 
@@ -226,6 +227,16 @@ func runCase(c *proto.Case) {
 		return
 	case "annot":
 		runAnnot(c)
+		return
+	case "conv":
+		// the text normalisation every comment goes through (codingconv.ConvertStrToUtf8)
+		var res []string
+		for _, t := range texts(c) {
+			res = append(res, base64.StdEncoding.EncodeToString([]byte(codingconv.ConvertStrToUtf8(string(t)))))
+		}
+		d, _ := json.Marshal(res)
+		emit(proto.Line{ID: c.ID, Kind: "parse", Data: d})
+		emit(proto.Line{ID: c.ID, Kind: "done"})
 		return
 	}
 	if !c.Keep || cur == nil {
